@@ -90,5 +90,13 @@ theorem c09_unknown_or_foreign_rejected (s : RegState) (now wall id key n : Nat)
     obtain ⟨oa, m, a, b, c⟩ := h2 s' can hk
     exact h oa m a b c
 
+/-- the byte limits of moniker, name and genesis hash in the model are the ones the source compares with -/
+theorem c09_limits_from_source :
+    ["wrkchain.msgs.Moniker.>", "wrkchain.msg_server.Moniker.>", "beacon.msgs.Moniker.>", "beacon.msg_server.Moniker.>"].all
+      (fun k => decide (AL.find? Facts.limits k = some maxMonikerLen)) = true ∧
+    ["wrkchain.msgs.Name.>", "wrkchain.msg_server.Name.>", "beacon.msgs.Name.>", "beacon.msg_server.Name.>"].all
+      (fun k => decide (AL.find? Facts.limits k = some maxNameLen)) = true ∧
+    AL.find? Facts.limits "wrkchain.msgs.GenesisHash.>" = some maxHashLen := by decide
+
 end C09
 end Mainchain
